@@ -95,6 +95,25 @@ partial def jDT (j : Json) : Except String DT := do
     return .div (← jDT a[1]) (← jDT a[2])
   else throw "dt"
 
+partial def jSetTree (j : Json) : Except String SetTree := do
+  let a ← j.getArr?
+  if h : a.size = 2 then
+    return .leaf (← a[1].getNat?)
+  else if h5 : a.size = 5 then
+    let k ← match (← a[1].getStr?) with
+      | "UNION" => pure SetKind.union
+      | "EXCEPT" => pure SetKind.except
+      | "INTERSECT" => pure SetKind.intersect
+      | _ => throw "setkind"
+    return .op k (← a[2].getBool?) (← jSetTree a[3]) (← jSetTree a[4])
+  else throw "settree"
+
+def showSetTok : SetTok → String
+  | .branch i => s!"b{i}"
+  | .kw .union d => if d then "UNION" else "UNION_ALL"
+  | .kw .except d => if d then "EXCEPT" else "EXCEPT_ALL"
+  | .kw .intersect d => if d then "INTERSECT" else "INTERSECT_ALL"
+
 def handle (line : String) : Except String String := do
   let j ← Json.parse line
   let op ← (← j.getObjVal? "op").getStr?
@@ -139,6 +158,9 @@ def handle (line : String) : Except String String := do
     let off ← (← j.getObjVal? "offset").getNat?
     let sorted := sortBy keys rows
     return " ".intercalate ((limitOffset (lim.map Int.toNat) off sorted).map showRow)
+  | "setops" =>
+    let t ← jSetTree (← j.getObjVal? "tree")
+    return " ".intercalate ((printSetOps t).map showSetTok)
   | "divtree" =>
     let n := parseDiv (← (← j.getObjVal? "st").getBool?) (← (← j.getObjVal? "ss").getBool?)
     let dt ← (← j.getObjVal? "dt").getBool?
